@@ -201,6 +201,22 @@ Theorem C19_bad_content_type_refused : forall st a m s mb bd,
   exists l, expand st a = Err (CompileErrors l).
 Proof. exact bad_content_type_refused. Qed.
 
+(* ---- the executable specification used on implementation runs ---- *)
+
+(* [spec_decl] (Macro.v) is the property in executable form over what the
+   harness observes of one declaration in the three styles: registration,
+   routing at every probe version and unversioned, the documented operation at
+   every probe version, agreement of the styles, and the doc-comment clause.
+   For every accepted declaration outside K19 (constants named in [versions]
+   holding printable versions) the model's own behaviour satisfies all of it,
+   at any list of probe versions. *)
+Theorem C19_model_meets_spec : forall a vs,
+  accepted a = true -> k19_class (a_docs a) = false -> versions_wf (a_versions a) = true ->
+  forallb (fun s => is_some (Semver.parse s)) vs = true ->
+  spec_decl a (map (model_ep a) styles) (map (model_route a None) styles)
+    (map (model_probe a) vs) = (true, true).
+Proof. exact model_meets_spec. Qed.
+
 (* ---- non-vacuity: the model evaluates, the hypotheses are satisfiable ---- *)
 
 Definition ex_path : str := [47;116].   (* "/t" *)
@@ -244,6 +260,11 @@ Example C19_example_refusals :
     = Err (CompileErrors [EWildcardPublished; EContentType]).
 Proof. vm_compute. repeat split. Qed.
 
+Example C19_example_meets_spec_hypotheses :
+  accepted ex_attr = true /\ k19_class (a_docs ex_attr) = false /\
+  versions_wf (a_versions ex_attr) = true /\ compiles ex_attr = true.
+Proof. vm_compute. repeat split. Qed.
+
 (* K19 is inhabited: "\n Summary\n * bullet\n text\n " *)
 Example C19_K19_witness :
   let d := [[10;32;83;117;109;109;97;114;121;10;32;42;32;98;117;108;108;101;116;10;32;116;101;120;116;10;32]] in
@@ -274,3 +295,4 @@ Print Assumptions C19_ident_pair_order.
 Print Assumptions C19_wildcard_needs_unpublished.
 Print Assumptions C19_channel_wildcard_refused.
 Print Assumptions C19_bad_content_type_refused.
+Print Assumptions C19_model_meets_spec.
